@@ -10,6 +10,9 @@ for sid in sorted(os.listdir(os.path.join(ROOT, 'seeded'))):
     where = ', '.join(os.path.basename(f) for f in m.get('files_touched', []))
     summ = re.sub(r'\s+', ' ', m.get('summary', '')).strip()
     summ = summ[:150] + ('…' if len(summ) > 150 else '')
+    if m.get('superseded'):
+        rows.append(f"| {sid} | {m['property']} | {where} | {summ} | superseded | no longer breaks the property on the current tree (see meta.json) |")
+        continue
     for prop, v in m.get('checks', {}).items():
         names = []
         for l in v.get('lines', []):
